@@ -145,3 +145,39 @@ func zzH_C12_ftp() {
 		}
 	}
 }
+
+// C12/ftp-retries: a login with a configured pair succeeds whatever came before on the
+// connection: F failed attempts (wrong password: any 4 printable bytes other than the
+// configured one; or an unknown user), then the configured pair, then a file command.
+func zzH_C12_ftpretries() {
+	users := map[string]string{"root": "toor"}
+	drv := &zzDriver{}
+	nc := &zzFConn{}
+	srv := NewServer(&ServerOpts{Auth: &User{users: users}})
+	conn := &Conn{namePrefix: "/", conn: nc, controlReader: bufio.NewReader(nc), controlWriter: bufio.NewWriter(nc),
+		driver: drv, auth: srv.Auth, server: srv, sessionid: "zz", rcv: make(chan string, 64)}
+	f := zzLen(0, zzParam("F", 5))
+	for i := 0; i < f; i++ {
+		user := []string{"root", "bob"}[zzLen(0, 1)]
+		pw := zzString(4)
+		for j := 0; j < 4; j++ {
+			zzAssume(zzAnd(pw[j] > 0x20, pw[j] < 0x7f))
+		}
+		zzAssume(pw != "toor")
+		conn.receiveLine("USER " + user + "\r\n")
+		mark := len(nc.out)
+		conn.receiveLine("PASS " + pw + "\r\n")
+		zzAssert(zzLastCode(nc.out, mark) != "230", "a wrong pair is refused")
+		for len(conn.rcv) > 0 {
+			<-conn.rcv
+		}
+	}
+	conn.receiveLine("USER root\r\n")
+	mark := len(nc.out)
+	conn.receiveLine("PASS toor\r\n")
+	zzAssert(zzLastCode(nc.out, mark) == "230", "the configured pair logs in, however many attempts failed before on the connection")
+	before := drv.calls
+	mark = len(nc.out)
+	conn.receiveLine("MKD d\r\n")
+	zzAssert(zzLastCode(nc.out, mark) != "530" && drv.calls > before, "after the login file commands are served")
+}
